@@ -53,7 +53,116 @@ fn random_decls(seed: u64) -> String {
     s
 }
 
-pub fn search(_tag: &str, tier: &str) -> Option<Value> {
+
+// ---------------------------------------------------------------- tables: the same grammar gives the same automaton and table every time
+fn table_signature(src: &str) -> Option<Vec<String>> {
+    use cfgrammar::yacc::YaccOriginalActionKind;
+    use lrtable::{from_yacc, Minimiser, StIdx};
+    let grm = YaccGrammar::<u32>::new_with_storaget(YaccKind::Original(YaccOriginalActionKind::NoAction), src).ok()?;
+    let (sg, st) = from_yacc(&grm, Minimiser::Pager).ok()?;
+    let mut v = Vec::new();
+    for s in 0..usize::from(sg.all_states_len()) {
+        let stidx = StIdx(s as u32);
+        let mut row = String::new();
+        for t in grm.iter_tidxs() { row.push_str(&format!("{:?};", st.action(stidx, t))); }
+        for r in grm.iter_rules() { row.push_str(&format!("{:?};", st.goto(stidx, r))); }
+        v.push(row);
+    }
+    Some(v)
+}
+
+pub fn run_tables(src: &str, times: usize) -> Outcome {
+    let expected = "the same state numbering, actions and gotos on every build".to_string();
+    let first = match table_signature(src) { Some(x) => x, None => return Outcome { fails: false, observed: "no table".into(), expected } };
+    for k in 1..times {
+        if let Some(s) = table_signature(src) {
+            if s != first { return Outcome { fails: true, observed: format!("build {} differs from the first build ({} vs {} states)", k, s.len(), first.len()), expected }; }
+        }
+    }
+    Outcome { fails: false, observed: format!("{} identical builds", times), expected }
+}
+
+/// non-LALR(1) grammars with recursion through several contexts: several states are re-queued at once when lookaheads are merged
+fn nested_family(seed: u64) -> String {
+    let mut r = crate::grms::Rng(seed.wrapping_mul(0xD6E8FEB86659FD93) | 1);
+    let t = ["'a'", "'b'", "'c'", "'d'"];
+    let nrules = 4 + r.below(2);
+    let mut s = String::from("%start R0\n%%\n");
+    for i in 0..nrules {
+        s.push_str(&format!("R{}: ", i));
+        let np = 2 + r.below(3);
+        for p in 0..np {
+            if p > 0 { s.push_str(" | "); }
+            let len = if p == np - 1 && r.below(2) == 0 { 0 } else { 1 + r.below(4) };
+            for _ in 0..len { if r.below(2) == 0 { s.push_str(t[r.below(4)]); } else { s.push_str(&format!("R{}", r.below(nrules))); } s.push(' '); }
+        }
+        s.push_str(";\n");
+    }
+    s
+}
+
+pub fn search_tables(tier: &str) -> Option<Value> {
+    let n = if tier == "thorough" { 20000 } else { 1500 };
+    for seed in 1..=n {
+        for g in [crate::grms::random_larger(seed), crate::c02::crossed_family(seed), nested_family(seed)] {
+            let o = run_tables(&g, 6);
+            if std::env::var_os("REPLAY_STATS").is_some() && o.observed == "no table" { eprintln!("no table: {:?}", g); }
+            if o.fails { return Some(witness("c15_tables", json!({"grammar": g}), &o)); }
+        }
+    }
+    None
+}
+
+// ---------------------------------------------------------------- generated code: byte-identical for identical settings
+pub fn run_codegen(src: &str, times: usize) -> Outcome {
+    use lrlex::DefaultLexerTypes;
+    use lrpar::CTParserBuilder;
+    let expected = "byte-identical generated parser modules for identical sources and settings".to_string();
+    static N: std::sync::atomic::AtomicUsize = std::sync::atomic::AtomicUsize::new(0);
+    let dir = std::env::temp_dir().join(format!("verif_c15_{}_{}", std::process::id(), N.fetch_add(1, std::sync::atomic::Ordering::SeqCst)));
+    let _ = std::fs::create_dir_all(&dir);
+    let gp = dir.join("grm.y");
+    std::fs::write(&gp, src).unwrap();
+    let mut first: Option<Vec<u8>> = None;
+    let mut res = Outcome { fails: false, observed: format!("{} identical generations", times), expected: expected.clone() };
+    for k in 0..times {
+        let out = dir.join(format!("out{}.rs", k));
+        let r = std::panic::catch_unwind(std::panic::AssertUnwindSafe(|| {
+            CTParserBuilder::<DefaultLexerTypes<u32>>::new()
+                .yacckind(YaccKind::Original(cfgrammar::yacc::YaccOriginalActionKind::GenericParseTree))
+                .mod_name("g_y")
+                .grammar_path(gp.to_str().unwrap())
+                .output_path(&out)
+                .build()
+                .is_ok()
+        }));
+        if !matches!(r, Ok(true)) { res.observed = "not generated".into(); break; }
+        let bytes = std::fs::read(&out).unwrap_or_default();
+        match &first {
+            None => first = Some(bytes),
+            Some(f) => if *f != bytes { res = Outcome { fails: true, observed: format!("generation {} differs from the first one ({} vs {} bytes)", k, bytes.len(), f.len()), expected: expected.clone() }; break; }
+        }
+    }
+    let _ = std::fs::remove_dir_all(&dir);
+    res
+}
+
+pub fn search_codegen(tier: &str) -> Option<Value> {
+    let n = if tier == "thorough" { 40 } else { 6 };
+    for seed in 1..=n {
+        let mut g = String::from("%start S\n%%\nS: ");
+        let k = 3 + (seed as usize % 9);
+        for i in 0..k { if i > 0 { g.push_str(" | "); } g.push_str(&format!("'t{}' 'u{}'", i, (i * 7 + seed as usize) % 11)); }
+        g.push_str(";\n");
+        let o = run_codegen(&g, 8);
+        if o.fails { return Some(witness("c15_codegen", json!({"grammar": g}), &o)); }
+    }
+    None
+}
+
+pub fn search(tag: &str, tier: &str) -> Option<Value> {
+    if tag.contains("cache_lists") { return search_codegen(tier); }
+    if tag.contains(".pager.") { return search_tables(tier); }
     for g in ["%start S\n%implicit_tokens ws nl tab cr\n%%\nS: 'x' 'y';", "%start S\n%implicit_tokens a b\n%%\nS: 'x';"] {
         let o = run(g, 200);
         if o.fails { return Some(witness("c15_numbering", json!({"grammar": g}), &o)); }
